@@ -4,6 +4,7 @@
 #![allow(dead_code, deprecated)]
 pub mod util;
 pub mod zoo;
+pub mod serial_common;
 
 /// common command line: `<bin> [quick|thorough] [seed] [only]`
 pub struct Args { pub thorough: bool, pub seed: u64, pub only: Option<String> }
